@@ -75,6 +75,9 @@ func createAudioSeg(vodFS fs.FS, a *asset, rec audioRecipe) (*mp4.MediaSegment, 
 	lastIdx := len(rep.Segments) - 1
 	// Find a segment start nr that is early enough for audioInStart
 	startNr := int(rec.audioInStart) / rep.duration()
+	if startNr > lastIdx {
+		startNr = lastIdx
+	}
 	for {
 		if rep.Segments[startNr].StartTime > rec.audioInStart {
 			startNr--
@@ -85,6 +88,13 @@ func createAudioSeg(vodFS fs.FS, a *asset, rec audioRecipe) (*mp4.MediaSegment, 
 	for i := startNr; i <= lastIdx; i++ {
 		s := rep.Segments[i]
 		if s.EndTime <= rec.audioInStart {
+			if i == lastIdx {
+				// The interval starts at or after the end of the VoD audio: only repeated (fill) samples
+				nrSamples := uint32((s.EndTime - s.StartTime) / sampleDur)
+				fillTime := rec.audioInEnd - rec.audioInStart
+				sampleItvls = append(sampleItvls, sampleItvl{i, nrSamples, nrSamples, uint32(fillTime / sampleDur)})
+				timeCollected += fillTime
+			}
 			continue
 		}
 		if nextAudioStart < s.EndTime && len(sampleItvls) == 0 {
